@@ -26,10 +26,28 @@ func IndexTable(db objects.Store, tblSum []byte, tbl *objects.Table, logger logr
 	)
 	logger = logger.WithName("IndexTable")
 	logger.Info("indexing table", "sum", tblSum)
+	// the table may come from an untrusted packfile: make sure indexing cannot go out of range
+	nCols := len(tbl.Columns)
+	for _, k := range tbl.PK {
+		if int(k) >= nCols {
+			return fmt.Errorf("primary key index %d out of range (%d columns)", k, nCols)
+		}
+	}
+	if len(tbl.BlockIndices) != len(tbl.Blocks) {
+		return fmt.Errorf("table has %d blocks but %d block indices", len(tbl.Blocks), len(tbl.BlockIndices))
+	}
 	for i, sum := range tbl.Blocks {
 		blk, bb, err = objects.GetBlock(db, bb, sum)
 		if err != nil {
 			return fmt.Errorf("GetBlock: %v", err)
+		}
+		if len(blk) == 0 {
+			return fmt.Errorf("block %x has no rows", sum)
+		}
+		for _, row := range blk {
+			if len(row) != nCols {
+				return fmt.Errorf("block %x has a row of %d cells, table has %d columns", sum, len(row), nCols)
+			}
 		}
 		if len(tbl.PK) > 0 {
 			tblIdx[i] = slice.IndicesToValues(blk[0], tbl.PK)
